@@ -32,7 +32,8 @@ CHECKS = {
          "at' + 1 - at transitions; C19_overlap_calls_total: over n calls at most (e-s)+(n-1) transitions, failure hops <= transitions; "
          "C19_overlap_iter_total). Prefilter work: findScan (PreScan.lean) = haystack extent the prefilter answers of a search account "
          "for, compared exactly with a third cfg-guarded counter in Prefilter::find_in; C19_builder_prescan_le: at most span length for "
-         "every prefilter the builder can choose. Tie: cfg-guarded counters in the "
+         "every prefilter the builder can choose; C19_builder_ovl_prescan_tied: one overlapping call's extent <= span on the real "
+         "(tied) automata; C19_stream_transitions: a stream search feeds each byte exactly once. Tie: cfg-guarded counters in the "
          "real search loops and in both NFA next_state loops; per search the two real counters must EQUAL the model's (DFA: 0 fails), and "
          "every call of an overlapping call sequence (anchored or not) likewise; the dump walk records the failure traversals of every (state, byte) next_state call, compared with the model's chain length by "
          "the certificate step (contiguous NFA against noncontiguous, DFA against zero).", "5 C19",
@@ -81,7 +82,9 @@ CHECKS = {
          "is OBSERVED through a hook for a sweep of longest-pattern lengths (up to 2^21 / 2^23), hcap is decided for each observation by "
          "the Lean driver, production-capacity requests carry the observed capacity, and stream-vs-in-memory self-comparison of the "
          "real searcher runs with synthetic 9 KB - 600 KB patterns. C07_stream_transfer + L1{c,cDense,d,dIds,e}_stream: the same "
-         "statement for the transcribed noncontiguous NFA, DFA (abstract and id-level) and contiguous NFA, for all pattern lists.", "5 C07",
+         "statement for the transcribed noncontiguous NFA, DFA (abstract and id-level) and contiguous NFA, for all pattern lists (and "
+         "C07Fold for case-insensitive searchers). The property is also checked as stated on the real code alone: stream search vs "
+         "in-memory search of the SAME searcher with the default prefilters, on generated lists and schedules.", "5 C07",
          "Lean invariant proof of the stream state machine + schedule-enumerating differential under the capacity hook"),
  "C08": ("proof",
          "C08_chunks_concat: the chunks concatenate to the stream and each match chunk carries exactly the matched bytes; "
